@@ -18,8 +18,32 @@ def ReprTy.max : ReprTy → Int
 
 def ReprTy.inRange (t : ReprTy) (x : Int) : Bool := t.min ≤ x && x ≤ t.max
 
-/-- the parameter type of `from_repr`: the `#[repr]` integer type, `usize` if none (from_repr.rs:13-32) -/
-def reprType (d : EnumDef) : ReprTy := d.repr.getD .usize
+/-- `StrumTypeProperties::enum_repr` (type_props.rs:151-165 after the F9 repair): the hints of EVERY `#[repr(..)]`
+    attribute, joined with commas in source order; `None` when the item has no such attribute -/
+def enumRepr (d : EnumDef) : Option (List ReprHint) :=
+  if d.reprAttrs.isEmpty then none else some d.reprAttrs.flatten
+
+/-- the pinned revision recorded only the LAST `#[repr(..)]` attribute -/
+def enumReprPinned (d : EnumDef) : Option (List ReprHint) := d.reprAttrs.getLast?
+
+/-- from_repr.rs:13-37 after the F8 repair: walk the hints, an integer type sets the discriminant type -/
+def scanIntHint : List ReprHint → ReprTy → ReprTy
+  | [], acc => acc
+  | .int t :: hs, _ => scanIntHint hs t
+  | _ :: hs, acc => scanIntHint hs acc
+
+/-- the parameter type of `from_repr` in the generated code -/
+def reprType (d : EnumDef) : ReprTy :=
+  match enumRepr d with
+  | none => .usize
+  | some hs => scanIntHint hs .usize
+
+/-- the pinned revision parsed the whole (last) hint list as ONE type: only a list that is exactly one integer type
+    was recognised; `C, u8`, `u8, align(4)`, .. fell back to `usize` -/
+def reprTypePinned (d : EnumDef) : ReprTy :=
+  match enumReprPinned d with
+  | some [.int t] => t
+  | _ => .usize
 
 /-- **The compiler's rule**, over ALL declared variants: explicit value, else previous + 1, first 0. -/
 def discrFrom : Option Int → List Variant → List Int
@@ -83,7 +107,8 @@ structure DiscEnum where
   name : Bytes
   /-- (identifier, explicit discriminant) for every declared variant, in order -/
   variants : List (Bytes × Option Int)
-  repr : Option ReprTy
+  /-- the hints of the single `#[repr(..)]` attribute emitted on the generated enum (`None`: no attribute) -/
+  repr : Option (List ReprHint)
   hasIntoDiscriminant : Bool
   deriving Repr
 
@@ -91,12 +116,12 @@ structure DiscEnum where
 def genDiscriminants (d : EnumDef) (nameOverride : Option Bytes) (vis : DiscVis) : DiscEnum :=
   { name := nameOverride.getD (d.name ++ [68, 105, 115, 99, 114, 105, 109, 105, 110, 97, 110, 116, 115]),
     variants := d.variants.map (fun v => (v.ident, v.discr)),
-    repr := d.repr,
+    repr := enumRepr d,
     hasIntoDiscriminant := vis != .restricted }
 
 /-- the discriminant enum seen as an enum definition (all variants field-less) -/
 def DiscEnum.asEnum (e : DiscEnum) : EnumDef :=
-  { name := e.name, repr := e.repr, variants := e.variants.map (fun p => { ident := p.1, discr := p.2 }) }
+  { name := e.name, reprAttrs := (match e.repr with | none => [] | some hs => [hs]), variants := e.variants.map (fun p => { ident := p.1, discr := p.2 }) }
 
 /-- `From<E>` / `From<&E>` match: one arm `E::V{..} => Disc::V` per declared variant (shared body) -/
 def discFromArms (d : EnumDef) : List (Bytes × Bytes) := d.variants.map (fun v => (v.ident, v.ident))
